@@ -4,6 +4,7 @@ INVARIANT AtMostOnce
 INVARIANT AttemptBound
 INVARIANT FramingNotRetried
 INVARIANT NoReuse
+INVARIANT OwnResponse
 INVARIANT TimeBound
 POSTCONDITION TracePost
 CHECK_DEADLOCK FALSE
